@@ -127,6 +127,19 @@ func init() {
 					}
 				}
 			}
+			// typed entries whose source is a symbolic link on the build host
+			for _, typ := range c08Types {
+				if typ == "dir" || typ == "ghost" || typ == "symlink" || typ == "tree" {
+					continue
+				}
+				for _, src := range []string{"link", "mixed/0link.conf", "links/plain"} {
+					e := c08Entry(typ, "", 1, false)
+					e.Src = src
+					if !yield(C08Case{Part: "link-source", List: []model.Entry{e, c08Entry("config", "", 2, false)}}) {
+						return
+					}
+				}
+			}
 			// entries that opt in to environment expansion keep their type and tag
 			for _, typ := range c08Types {
 				for _, tag := range tags {
